@@ -334,6 +334,50 @@ def r5_cursor_half_open(c, facts, rule='C17.R5'):
         c.ok(R, {'syntax_at': 'half-open test', 'tests': [k for k, _ in tests]})
 
 
+def r10_folder_registry(c, facts, rule='C17.R10'):
+    """requests are answered from the registered workspace folders: a folder the client announces must end up
+    registered - its configuration file is found through Url::to_file_path (the path of a URL is percent-encoded: `my%20ws`
+    is not a directory), and within one folder-change event removals come before additions (a folder listed in both is
+    re-announced, not dropped)"""
+    R = c.rule(rule, 'FOLDER-REGISTRY: an announced workspace folder gets registered: config path by Url::to_file_path; removals before additions within one event')
+    fnew = c.anchor(R, 'oal_client::lsp::Folder::new')
+    fam = facts.family(fnew)
+    names = {P.strip(callee_of(t)['def']).split('::')[-1] for g in fam if g.mir for b, t in g.calls() if callee_of(t) and P.strip(callee_of(t)['def']).startswith('url::')}
+    raw = sorted(names & {'path', 'as_str', 'to_string', 'path_segments'})
+    if 'to_file_path' in names and not raw:
+        c.ok(R, {'Folder::new': 'the configuration path comes from Url::to_file_path'})
+    else:
+        c.bad(R, 'Folder::new:config-path-not-to_file_path:%s' % ','.join(raw), 'Folder::new builds the path of oal.toml from %s instead of Url::to_file_path: a workspace directory with a space or a non-ASCII letter in its name has no configuration, the folder is dropped and every request in it answers nothing' % (raw or sorted(names)))
+    # the folder-change handler
+    def inserts(f, depth=0):
+        for b, t in f.calls():
+            info = callee_of(t)
+            if not info:
+                continue
+            if P.strip(info['def']).split('::')[-1] == 'insert' and t['args'] and 'Folder' in t['args'][0].get('ty', '') and 'HashMap' in t['args'][0].get('ty', ''):
+                yield b
+            elif depth < 2:
+                h = facts.fns.get(info.get('resolved_id') or info.get('id'))
+                if h is not None and h.mir and h.crate == f.crate and h.id != f.id and any(True for _ in inserts(h, depth + 1)):
+                    yield b
+    n = 0
+    for g in sorted(facts.fns.values(), key=lambda f: f.qname):
+        if not g.mir or g.crate not in ('oal_lsp', 'oal_client'):
+            continue
+        rem = {b for b, t in g.calls() if callee_of(t) and P.strip(callee_of(t)['def']).split('::')[-1] == 'remove' and t['args'] and 'Folder' in t['args'][0].get('ty', '') and 'HashMap' in t['args'][0].get('ty', '')}
+        ins = set(inserts(g))
+        if not rem or not ins:
+            continue
+        n += 1
+        late = sorted(r for r in rem if any(r in g.reachable_from(i) for i in ins))
+        inst = {'handler': g.qname, 'removals': len(rem), 'additions': len(ins)}
+        if late:
+            c.bad(R, 'folder-event:removal-after-addition', '%s can remove a folder after having added folders of the same event: a folder the client re-announces (listed as removed and added) ends up unregistered' % g.qname, **inst)
+        else:
+            c.ok(R, inst)
+    c.floor(R, 'folder-change handlers', n, 1)
+
+
 def r9_ident_identity(c, facts, rule='C17.R9'):
     """Identifier equality is equality of the *text* (parser.rs): in the handlers two identifier nodes are the same only
     when they are the same node - `user.user` has two different identifiers with one spelling"""
@@ -432,6 +476,7 @@ def r6_folders(c, facts, rule='C17.R6'):
 
 
 def run(c, facts):
+    c.run(r10_folder_registry, facts)
     c.run(r9_ident_identity, facts)
     c.run(r8_cursor_on_identifier, facts)
     c.run(r6_folders, facts)
